@@ -99,7 +99,12 @@ func (v *VFD) IsClosed() bool {
 // per round must have made at least a quarter of its rounds in a second for that second to count. On a starved machine
 // the wait simply gets longer (absolute cap: 20 x healthy).
 func InjectPatient(epfd int, evs []syscall.EpollEvent, healthy time.Duration) bool {
-	done := InjectAsync(epfd, evs)
+	return WaitPatient(InjectAsync(epfd, evs), healthy)
+}
+
+// WaitPatient waits for done with the same one-sided bound: false only after `healthy` of time in which this process was
+// demonstrably scheduled has gone by (absolute cap: 20 x healthy).
+func WaitPatient(done <-chan struct{}, healthy time.Duration) bool {
 	select { // the common case: no canary needed
 	case <-done:
 		return true
@@ -134,4 +139,13 @@ func InjectPatient(epfd int, evs []syscall.EpollEvent, healthy time.Duration) bo
 		}
 	}
 	return false
+}
+
+var realWakeups, realReads int64
+
+// RealActivity counts what nbio does on REAL descriptors: epoll_wait calls that returned events (poller wake-ups) and
+// read/recvfrom calls. An idle engine makes none of either; a spinning poller or read task makes thousands per second
+// whatever the load of the machine — the load only slows the counting down.
+func RealActivity() (wakeups, reads int64) {
+	return atomic.LoadInt64(&realWakeups), atomic.LoadInt64(&realReads)
 }
